@@ -33,3 +33,9 @@ fn c03_floor_char_boundary_5() {
 fn c03_floor_char_boundary_8() {
     check::<8>();
 }
+
+#[kani::proof]
+#[kani::unwind(13)]
+fn c03_floor_char_boundary_10() {
+    check::<10>();
+}
